@@ -68,7 +68,7 @@ func c06dq(t string, r *core.Rng) string {
 }
 
 func c06sep(r *core.Rng) string {
-	return core.Pick(r, []string{" ", " ", " ", "\n", "\t", "  ", " /* c */ ", "/**/", " // c\n", "\n  // line\n  ", " /* { ; } \" ' */ "})
+	return core.Pick(r, []string{" ", " ", " ", "\n", "\t", "  ", " /* c */ ", "/**/", " // c\n", "\n  // line\n  ", " /* { ; } \" ' */ ", " /*/ slash first */ ", "/***/"})
 }
 
 func c06quote(t string, r *core.Rng, allowUnquoted bool) (string, string) {
@@ -90,6 +90,9 @@ func c06quote(t string, r *core.Rng, allowUnquoted bool) (string, string) {
 	case "concat":
 		rs := []rune(t)
 		n := 2 + r.Intn(2)
+		if r.Chance(3) {
+			n = 33 + r.Intn(40) // more pieces than the lexer's token ring once held
+		}
 		var parts []string
 		prev := 0
 		for i := 1; i < n && prev < len(rs); i++ {
@@ -129,6 +132,9 @@ func (cr *c06render) sep() string {
 }
 
 func (cr *c06render) stmt(s *ystmt, indent string) string {
+	if strings.HasPrefix(s.kw, "#") {
+		return "" // not written: a fact the leaf inherits from its typedef
+	}
 	var b strings.Builder
 	b.WriteString(indent + s.kw)
 	if s.arg != nil {
@@ -178,7 +184,10 @@ type c06fact struct {
 	want string
 }
 
+type c06typedef struct{ name, units, dflt string }
+
 type c06gen struct {
+	typedefs []c06typedef
 	r     *core.Rng
 	seq   int
 	facts []c06fact
@@ -226,7 +235,11 @@ func c06facts(s *ystmt, path string, out *[]c06fact) {
 			nUnique++
 		case k.kw == "key":
 			add("key", strings.Join(strings.Fields(arg), " "))
-		case k.kw == "extension" || k.kw == "type" || k.kw == "argument":
+		case k.kw == "#inherited-units":
+			add("units", arg)
+		case k.kw == "#inherited-default":
+			add("default", arg)
+		case k.kw == "extension" || k.kw == "type" || k.kw == "argument" || k.kw == "typedef":
 		case k.kw == "case":
 			cases = append(cases, arg)
 			c06facts(k, path+"/"+arg, out)
@@ -247,6 +260,9 @@ func c06facts(s *ystmt, path string, out *[]c06fact) {
 				}
 			}
 		}
+	}
+	for kw, n := range nExtOn {
+		add("extension-count@"+kw, fmt.Sprint(n))
 	}
 	if s.kw == "choice" {
 		add("cases-in-order", strings.Join(cases, ","))
@@ -349,6 +365,11 @@ func (g *c06gen) leaf(parent string, configFalse bool, isKey bool, fixedName str
 	if isKey {
 		typ = "string"
 	}
+	tdIdx := -1
+	if !isKey && len(g.typedefs) > 0 && g.r.Chance(40) {
+		tdIdx = g.r.Intn(len(g.typedefs))
+		typ = "string"
+	}
 	var subs []*ystmt
 	extIdx := 0
 	g.common(path, &subs, &extIdx)
@@ -387,7 +408,23 @@ func (g *c06gen) leaf(parent string, configFalse bool, isKey bool, fixedName str
 		subs = append(subs, s)
 	}
 	g.shuffle(subs)
-	subs = append(subs, ys("type", typ))
+	if tdIdx >= 0 {
+		td := g.typedefs[tdIdx]
+		// what the leaf does not state it takes from the typedef
+		has := map[string]bool{}
+		for _, k := range subs {
+			has[k.kw] = true
+		}
+		if td.units != "" && !has["units"] {
+			subs = append(subs, &ystmt{kw: "#inherited-units", arg: &td.units})
+		}
+		if td.dflt != "" && !has["default"] && !has["mandatory"] {
+			subs = append(subs, &ystmt{kw: "#inherited-default", arg: &td.dflt})
+		}
+		subs = append(subs, ys("type", td.name))
+	} else {
+		subs = append(subs, ys("type", typ))
+	}
 	g.shuffle(subs)
 	return ys("leaf", n, subs...)
 }
@@ -581,6 +618,20 @@ func (g *c06gen) module() *ystmt {
 		subs = append(subs, ys("revision", dates[i], rs...))
 	}
 	subs = append(subs, ys("extension", "e1", ys("argument", "name")), ys("extension", "e2"))
+	for i, n := 0, g.r.Intn(3); i < n; i++ {
+		td := c06typedef{name: g.name("td")}
+		tsubs := []*ystmt{ys("type", "string")}
+		if g.r.Chance(70) {
+			td.units = core.Pick(g.r, []string{"tu", "typedef units", "s"})
+			tsubs = append(tsubs, yt("units", td.units))
+		}
+		if g.r.Chance(50) {
+			td.dflt = core.Pick(g.r, []string{"td", "typedef default"})
+			tsubs = append(tsubs, yt("default", td.dflt))
+		}
+		g.typedefs = append(g.typedefs, td)
+		subs = append(subs, ys("typedef", td.name, tsubs...))
+	}
 	if e := g.ext("", "", &extIdx); e != nil {
 		subs = append(subs, e)
 	}
@@ -746,6 +797,16 @@ func c06read(m *meta.Module, f c06fact) (got string, ok bool) {
 		// the only order the public API offers
 		return strings.Join(n.(*meta.Choice).CaseIdents(), ","), true
 	default:
+		if strings.HasPrefix(what, "extension-count@") {
+			kw := strings.TrimPrefix(what, "extension-count@")
+			n0 := 0
+			for _, e := range n.(meta.HasExtensions).Extensions() {
+				if e.Keyword() == kw {
+					n0++
+				}
+			}
+			return fmt.Sprint(n0), true
+		}
 		if strings.HasPrefix(what, "extension@") {
 			kw := strings.TrimPrefix(what, "extension@")
 			var es []*meta.Extension
@@ -950,6 +1011,14 @@ func c06known(what, y string) string { return "" }
 func c06knownFact(f c06fact, got string) string {
 	if f.what == "status" && got == "current" {
 		return "status-not-stored"
+	}
+	if strings.HasPrefix(f.what, "extension-count@") && f.what != "extension-count@" {
+		var w, g int
+		fmt.Sscan(f.want, &w)
+		fmt.Sscan(got, &g)
+		if g == 2*w {
+			return "secondary-extension-listed-twice"
+		}
 	}
 	if f.what == "cases-in-order" {
 		// same set, sorted
